@@ -265,7 +265,7 @@ def run_cache_case(ops, on_step=None):
 
     ops: ['grow', k] | ['init', a] | ['reorg', a, regrow] | ['trunc', a] | ['query', a, b]
     where a, b are reduced modulo what is legal at that point (construction, not rejection).'''
-    loop = asyncio.new_event_loop()
+    loop = _det_loop()
     try:
         return loop.run_until_complete(_run_cache_case(ops))
     finally:
@@ -391,6 +391,13 @@ def run_cache(ctx):
 # request runs whenever one waits for its read.  Here 2..4 branch_and_root calls are started
 # together over a static source whose reads complete in a generated order.
 
+def _det_loop():
+    '''A SimLoop instead of a plain event loop: worker-thread jobs (should the code under test
+    use any) run at fixed loop iterations, not on a real thread.'''
+    from pbt.simloop import SimLoop
+    return SimLoop(vt_deadline=1e12, max_iterations=10 ** 15)
+
+
 class SlowSource:
     def __init__(self, items):
         self.items = items
@@ -508,11 +515,12 @@ async def _run_conc_case(case):
 
 
 def run_conc_case(case):
-    loop = asyncio.new_event_loop()
-    try:
-        return loop.run_until_complete(_run_conc_case(case))
-    finally:
-        loop.close()
+    # under the SimLoop: should the cache ever hand work to a worker thread (run_in_thread), the
+    # job is executed and delivered at loop iterations fixed by the case (its completion-order
+    # list doubles as the scheduling tape) instead of by a real thread's timing
+    from pbt.simloop import Chooser, run_sim
+    return run_sim(lambda loop: _run_conc_case(case), chooser=Chooser(case[2]), max_job_delay=3,
+                   vt_deadline=1e6, max_iterations=2_000_000)
 
 
 CONC_CASE = st.tuples(
@@ -551,7 +559,7 @@ def run_cache_enumerated(ctx):
                 for b_kind in ('q', 't'):
                     for b in lens:
                         seqs.append((init, a_kind, a, b_kind, b))
-    loop = asyncio.new_event_loop()
+    loop = _det_loop()
     try:
         for i, (init, ak, a, bk, b) in enumerate(seqs):
             if i % ctx.nshards != ctx.shard:
@@ -685,7 +693,7 @@ async def _run_large_case(case):
 
 def large_body(ctx):
     def body(case):
-        loop = asyncio.new_event_loop()
+        loop = _det_loop()
         try:
             try:
                 msg = loop.run_until_complete(_run_large_case(case))
@@ -753,7 +761,7 @@ def replay(ctx, check, case):
         msg, _ = run_conc_case(case)
         return (msg, 'concurrent') if msg else None
     if check == 'c12.cache_enum':
-        loop = asyncio.new_event_loop()
+        loop = _det_loop()
         try:
             msg = loop.run_until_complete(_enum_one(case['init'], case['a'][0], case['a'][1],
                                                     case['b'][0], case['b'][1], 24))
